@@ -8,7 +8,7 @@ import (
 
 func init() {
 	register(&propDef{ID: "C04", Run: runC04,
-		Explain: "Structural necessary conditions of 'in-dialog requests stick to the answering backend', decided on SSA/CFG of /repo: (1) lookup-before-pool: in sendToBackend the receiver of Send is the pinned backend on the success edge of findBackendByDialog and the service's round-robin pool only on its failure edge; (2) bind-sites: handleDialog binds AddBackend(GetDialog(msg), getBackendOfResponse(JoinHostPort(peer), msg), Expires) for every response (provisional or final) whose CSeq method is INVITE and that has a dialog identifier, once; getBackendOfResponse answers with backends[addr] first; the response branch of HandleMessage binds the dialog of a SUBSCRIBE response to the backend registered under the next hop's host:port; sendToBackend binds the client transaction to the chosen backend after a successful send; (3) key-agreement: every key given to the pin table (AddBackend/GetBackend/RemoveDialog) is produced by GetDialog or by GetClientTransaction, each namespace has put, get and remove sites, and the backend address index is written under Backend.GetAddress() and read under host:port strings; (4) order: the loop's message case runs handleRawMessage, then handleDialog(peer address, peer port, message), then HandleMessage(message), each once, the latter two only on success; (5) method-gate: findBackendByDialog refuses only INVITE and SUBSCRIBE, every other method looks up GetDialog(msg) in the pin table and returns that lookup's backend and error; the dialog identifier itself is C16, lifetime C15, thread confinement C09.",
+		Explain:    "Structural necessary conditions of 'in-dialog requests stick to the answering backend', decided on SSA/CFG of /repo: (1) lookup-before-pool: in sendToBackend the receiver of Send is the pinned backend on the success edge of findBackendByDialog and the service's round-robin pool only on its failure edge; (2) bind-sites: handleDialog binds AddBackend(GetDialog(msg), getBackendOfResponse(JoinHostPort(peer), msg), Expires) for every response (provisional or final) whose CSeq method is INVITE and that has a dialog identifier, once; getBackendOfResponse answers with backends[addr] first; the response branch of HandleMessage binds the dialog of a SUBSCRIBE response to the backend registered under the next hop's host:port; sendToBackend binds the client transaction to the chosen backend after a successful send; (3) key-agreement: every key given to the pin table (AddBackend/GetBackend/RemoveDialog) is produced by GetDialog or by GetClientTransaction, each namespace has put, get and remove sites, and the backend address index is written under Backend.GetAddress() and read under host:port strings; (4) order: the loop's message case runs handleRawMessage, then handleDialog(peer address, peer port, message), then HandleMessage(message), each once, the latter two only on success; (5) method-gate: findBackendByDialog refuses only INVITE and SUBSCRIBE, every other method looks up GetDialog(msg) in the pin table and returns that lookup's backend and error; the dialog identifier itself is C16, lifetime C15, thread confinement C09.",
 		NotDecided: "stickiness over interleaved histories as such."})
 }
 
@@ -18,6 +18,7 @@ func runC04(c *Ctx) {
 	c04KeyAgreement(c)
 	c04Order(c)
 	c04MethodGate(c)
+	c07StampGuard(c)
 	// the pin is only as good as its key and its lifetime: the identity rules of C16 and the
 	// expiry/sweep rules of C15 are necessary conditions of stickiness as well
 	runC16(c)
@@ -321,6 +322,7 @@ func c04KeyAgreement(c *Ctx) {
 func c04Order(c *Ctx) {
 	w := c.w
 	rule := "order"
+	ruleLookupBeforeForget(c, rule)
 	f := c.fn(rule, "(*Proxy).receiveAndProcessMessage")
 	if f == nil {
 		return
@@ -337,7 +339,9 @@ func c04Order(c *Ctx) {
 	c.check(w.requires(f, d, errNil(r), true) && w.requires(f, m, errNil(r), true), rule, "loop/only-on-success", w.ipos(d), "bookkeeping and routing only for accepted messages", "handleDialog/HandleMessage run although handleRawMessage failed")
 	// one pass through the case: from the raw step to the next select, each later step exactly once on success
 	okKeep := w.under(assumeAtom(errNil(r), true))
-	stop := func(b *ssa.BasicBlock, i int) bool { return okKeep(b, i) && b.Succs[i] != r.Block() && !isSelectBlock(b.Succs[i]) }
+	stop := func(b *ssa.BasicBlock, i int) bool {
+		return okKeep(b, i) && b.Succs[i] != r.Block() && !isSelectBlock(b.Succs[i])
+	}
 	for _, s := range []ssa.CallInstruction{d, m} {
 		mn, mx, inf := countSites(at(r), stop, isInstr(s))
 		c.check(mn == 1 && mx == 1 && !inf, rule, "loop/"+w.calleeName(s)+"-once", w.ipos(s), "exactly once per accepted message", fmt.Sprintf("%s runs min=%d max=%d times per accepted message", w.calleeName(s), mn, mx))
@@ -419,4 +423,28 @@ func c04MethodGate(c *Ctx) {
 		c.check(ok, rule, "findBackendByDialog/"+w.calleeName(call)+"-error", w.ipos(call), "no method / no dialog -> not pinned", "a failing "+w.calleeName(call)+" is not reported: "+why)
 	}
 	c.floor(rule, 7)
+}
+
+// ruleLookupBeforeForget: in getBackendOfResponse the pin of the response's client transaction is read before it is
+// dropped: no RemoveDialog(transId) can be followed by the GetBackend(transId) that attributes the response.
+func ruleLookupBeforeForget(c *Ctx, rule string) {
+	w := c.w
+	f := c.fn(rule, "(*Proxy).getBackendOfResponse")
+	if f == nil {
+		return
+	}
+	var gb ssa.CallInstruction
+	for _, cs := range w.callsIn(f, "(*DialogBasedBackend).GetBackend") {
+		gb = cs.In
+	}
+	if gb == nil {
+		return // reported by transaction-fallback
+	}
+	good := true
+	for _, cs := range w.callsIn(f, "(*DialogBasedBackend).RemoveDialog") {
+		if canReach(at(cs.In), nil, isInstr(gb), nil) {
+			good = false
+		}
+	}
+	c.check(good, rule, "getBackendOfResponse/lookup-before-forget", w.ipos(gb), "the transaction pin is read before it is dropped", "the client-transaction pin is removed before it is looked up: a final response from an address that is not a registered backend (another source port, a backend removed by DNS) is no longer attributed to its backend, so its INVITE/SUBSCRIBE dialog is not bound and its BYE does not dissolve the pin")
 }
